@@ -13,6 +13,21 @@ func NewLexer(expression string) Lexer {
 	}
 }
 
+// skipBlanks returns the position of the first rune at or after position
+// that is not white space.
+func (l *Lexer) skipBlanks(position int) int {
+	for position < len(l.expression) {
+		switch l.expression[position] {
+		case '\t', '\n', '\r', ' ':
+			position++
+		default:
+			return position
+		}
+	}
+
+	return position
+}
+
 func (l *Lexer) Next(t *Token) error {
 	if l.position == len(l.expression) {
 		*t = Token{
@@ -136,9 +151,13 @@ func (l *Lexer) Next(t *Token) error {
 
 		return nil
 	case '.':
-		nr, nsz, err := l.decodeRune(start + sz)
+		// "." and "*" are two terminals of the grammar: white space may
+		// stand between them
+		star := l.skipBlanks(start + sz)
+
+		nr, nsz, err := l.decodeRune(star)
 		if err == nil && nr == '*' {
-			l.position += sz + nsz
+			l.position = star + nsz
 			*t = Token{
 				Type:  ObjectWildcardToken,
 				Value: l.expression[start:l.position],
@@ -247,39 +266,44 @@ func (l *Lexer) Next(t *Token) error {
 
 		return nil
 	case '[':
+		// "[", "*" and "]" are three terminals of the grammar: white space
+		// may stand between them ("[]" and "[?" are one terminal each)
+		star := l.skipBlanks(start + sz)
+
+		if nr, nsz, err := l.decodeRune(star); err == nil && nr == '*' {
+			closer := l.skipBlanks(star + nsz)
+
+			if nnr, nnsz, err := l.decodeRune(closer); err == nil && nnr == ']' {
+				l.position = closer + nnsz
+				*t = Token{
+					Type:  ArrayWildcardToken,
+					Value: l.expression[start:l.position],
+				}
+
+				return nil
+			}
+		}
+
 		nr, nsz, err := l.decodeRune(start + sz)
 		if err == nil {
-			if nr == '*' {
-				nnr, nnsz, err := l.decodeRune(start + sz + nsz)
-				if err == nil && nnr == ']' {
-					l.position += sz + nsz + nnsz
-					*t = Token{
-						Type:  ArrayWildcardToken,
-						Value: l.expression[start:l.position],
-					}
-
-					return nil
-				}
-			} else {
-				if nr == '?' {
-					l.position += sz + nsz
-					*t = Token{
-						Type:  FilterToken,
-						Value: l.expression[start:l.position],
-					}
-
-					return nil
+			if nr == '?' {
+				l.position += sz + nsz
+				*t = Token{
+					Type:  FilterToken,
+					Value: l.expression[start:l.position],
 				}
 
-				if nr == ']' {
-					l.position += sz + nsz
-					*t = Token{
-						Type:  FlattenToken,
-						Value: l.expression[start:l.position],
-					}
+				return nil
+			}
 
-					return nil
+			if nr == ']' {
+				l.position += sz + nsz
+				*t = Token{
+					Type:  FlattenToken,
+					Value: l.expression[start:l.position],
 				}
+
+				return nil
 			}
 		}
 
